@@ -163,6 +163,24 @@ impl Monitor for C04 {
                 gen_line_shape(&mut rng, &['a', 'b', '#'])
             } else if metas {
                 gen_pattern(&mut rng, &meta)
+            } else if eol && rng.chance(1, 2) {
+                // (?: x (g)q )+ $ : a loop whose body ends in a quantified group that may take the line
+                // break, so that a given-back iteration of the group ends beyond the final match
+                let x = if rng.chance(1, 2) { Node::Char(*rng.pick(&['a', 'x'])) } else { Node::Class(crate::ast::ClassExpr { neg: false, items: vec![crate::ast::ClassItem::Ch('x'), crate::ast::ClassItem::Ch('a')], sub: None }) };
+                let g = match rng.below(3) {
+                    0 => Node::Cat(vec![Node::Char('a'), Node::Char('\n')]),
+                    1 => Node::Char('\n'),
+                    _ => Node::Cat(vec![Node::Char(*rng.pick(&['a', 'b'])), Node::Repeat { body: Box::new(Node::Char('\n')), min: 0, max: Some(1), greedy: true, spell: 0 }]),
+                };
+                let (qmin, qmax) = *rng.pick(&[(0, None), (0, Some(1)), (1, None), (0, Some(2))]);
+                let inner = Node::Repeat { body: Box::new(Node::Group(Box::new(g))), min: qmin, max: qmax, greedy: true, spell: 0 };
+                let body = Node::NcGroup(Box::new(Node::Cat(vec![x, inner])));
+                let (omin, omax) = *rng.pick(&[(1, None), (0, None), (1, Some(3)), (2, None)]);
+                let mut v = vec![Node::Repeat { body: Box::new(body), min: omin, max: omax, greedy: true, spell: 0 }, Node::Eol];
+                if rng.chance(1, 3) {
+                    v.insert(0, Node::Char(*rng.pick(&['a', 'b', 'x'])));
+                }
+                Node::Cat(v)
             } else if eol {
                 Node::Cat(vec![gen_pattern(&mut rng, &loops), Node::Eol]).normalize()
             } else {
